@@ -218,7 +218,7 @@ class TypedDictValidator(_ToTupleValidator[_TDT]):
         if self.fail_on_unknown_keys:
             for key_ in coerced_val:
                 if key_ not in self._keys_set:
-                    return False, Invalid(self._unknown_keys_err, data, self)
+                    return False, Invalid(self._unknown_keys_err, coerced_val, self)
 
         success_dict: Dict[str, object] = {}
         errs: Dict[Any, Invalid] = {}
